@@ -252,3 +252,6 @@ impl Session {
         self.base_settings.add_root_certificate(cert);
     }
 }
+
+#[cfg(kani)]
+include!(concat!(env!("ATTOHTTPC_VERIF_HARNESS"), "/session.rs"));
